@@ -264,13 +264,13 @@ theorem rt_area (n : Namespaces) (a : Area) (hok : a.ok = true) (hc : Tags.canon
   cases a; rfl
 
 theorem rt_relationWith (mp : BitVec 16) (n : Namespaces) (r : Relation) (hok : r.ok = true)
-    (hc : Tags.canonical r.tags = true) (ht : ∀ m ∈ r.members, m.typeOk = true) :
+    (hc : Tags.canonical r.tags = true) :
     RT (r.enc mp n) (Relation.decWith mp n) r := by
   simp only [Relation.ok, Bool.and_eq_true] at hok
   unfold Relation.enc Relation.decWith
   rw [List.append_assoc]
   refine (RT.andThen (rt_tags _ r.tags hok.1.1 hc)
-    (RT.andThen (rt_members mp r.members hok.1.2 ht) (RT.map _ (rt_references _ _ hok.2)))).congr rfl ?_
+    (RT.andThen (rt_members mp r.members hok.1.2) (RT.map _ (rt_references _ _ hok.2)))).congr rfl ?_
   cases r; rfl
 
 /-! ## Namespaces, strings, search index headers -/
